@@ -224,6 +224,9 @@ def run(tier: str) -> int:
         worlds.append(C10Dst(mode="ack", nak=nak, closure=False, size=5, seg=2, ack_limit=2, nak_limit=2, variant="fd"))
     for mode in ("ack", "unack"):
         worlds.append(C10Dst(mode=mode, nak="imm", closure=True, size=2, seg=2, ack_limit=2, nak_limit=2, check_limit=2, variant="names"))
+    # the destination directory holds a directory with the source file's base name: the file can be neither created nor truncated
+    for mode in ("ack", "unack"):
+        worlds.append(C10Dst(mode=mode, nak="imm", closure=True, size=4, seg=2, ack_limit=2, nak_limit=2, check_limit=2, shape="dir_dir"))
     # late states: receiver awaiting the ACK of its Finished PDU / awaiting missing data; sender awaiting the EOF ACK / the Finished PDU
     fin_wait = [("md",), ("fd", 0, 2, 0), ("fd", 2, 2, 0), ("eof", 4, "NO_ERROR", 1), ("tick",), ("tick",)]
     miss_wait = [("md",), ("fd", 2, 2, 0), ("eof", 4, "NO_ERROR", 1), ("tick",)]
